@@ -29,8 +29,9 @@ type SReq struct {
 }
 
 type httpReply struct {
-	Raw  []byte
-	Cuts []int // lengths of the writes
+	Raw     []byte
+	Cuts    []int // lengths of the writes
+	DelayMs int   // wait this long before answering
 }
 
 type backConn struct {
@@ -169,6 +170,9 @@ func (b *httpBackend) handle(c net.Conn, bc *backConn) {
 		if berr != nil {
 			return
 		}
+		if rep.DelayMs > 0 {
+			time.Sleep(time.Duration(rep.DelayMs) * time.Millisecond)
+		}
 		rest := rep.Raw
 		for _, n := range rep.Cuts {
 			if n > len(rest) {
@@ -232,8 +236,9 @@ func (b *httpBackend) allConns() []*backConn {
 // ---------- raw TCP backend: reads `want` bytes (or to EOF), replies, closes ----------
 
 type rawScript struct {
-	Want  int      // reply after this many bytes (0: reply at once)
-	Reply [][]byte // writes
+	Want    int      // reply after this many bytes (0: reply at once)
+	Reply   [][]byte // writes
+	DelayMs int      // wait this long before replying
 }
 
 type rawConn struct {
@@ -255,6 +260,7 @@ type rawBackend struct {
 	conns  []*rawConn
 	script rawScript
 	keyed  []keyedScript // non-nil: concurrent mode
+	manual chan net.Conn // non-nil: accepted connections are handed to the scenario, which drives them itself
 }
 
 var keyedDefaultReply = []byte{0, 7, 'u', 'n', 'k', 'n', 'o', 'w', 'n'} // a framed "unknown"
@@ -316,7 +322,12 @@ func newRawBackend(addr string) (*rawBackend, error) {
 			b.conns = append(b.conns, rc)
 			sc := b.script
 			keyed := b.keyed
+			manual := b.manual
 			b.mu.Unlock()
+			if manual != nil {
+				manual <- c
+				continue
+			}
 			go func() {
 				defer close(rc.done)
 				defer c.Close()
@@ -334,6 +345,9 @@ func newRawBackend(addr string) (*rawBackend, error) {
 					if err != nil {
 						return
 					}
+				}
+				if sc.DelayMs > 0 {
+					time.Sleep(time.Duration(sc.DelayMs) * time.Millisecond)
 				}
 				for _, w := range sc.Reply {
 					c.Write(w)
